@@ -415,6 +415,17 @@ def load_known_findings(prop: str) -> list[dict[str, Any]]:
     return [e for e in data.get("findings", []) if e.get("property") == prop]
 
 
+def match_soft(classes: str, known: list[dict[str, Any]]) -> list[dict[str, Any]] | None:
+    """Known-finding entries for every class of a 'soft' difference, or None if one class is not listed."""
+    out = []
+    for c in classes.split("+"):
+        e = next((e for e in known if e.get("match", {}).get("kind") == c), None)
+        if e is None:
+            return None
+        out.append(e)
+    return out
+
+
 def write_replay(prop: str, replay: dict[str, Any]) -> str:
     d = os.path.join(REPLAY_DIR, prop)
     os.makedirs(d, exist_ok=True)
